@@ -93,6 +93,9 @@ def base_requests(r, ctx):
     if r.random() < 0.15:
         rq['items'].append({'op': 'Query', 'funcs': [1]})
         rq['cont'] = 1
+        if r.random() < 0.35:
+            # two items under the same batch item identifier
+            rq['ids'] = ['aa', 'aa']
     if r.random() < 0.1:
         rq['cred'] = ['user', 'secret-password']
     return rq
